@@ -22,7 +22,8 @@ impl Check for C14 {
     fn generate(&self, r: &mut Rng, tier: Tier, st: &mut Stats) -> Trace {
         let (mc, mr) = (24, 8);
         let (cols, rows) = gen_size(r, mc, mr);
-        let limit = *r.pick(&[Some(0), Some(0), Some(1), Some(2), Some(5), Some(9), Some(10), Some(11), Some(15), Some(20), Some(30)]);
+        // None: the chunked twin may be unlimited too (then nothing may be handed out at all)
+        let limit = *r.pick(&[Some(0), Some(0), Some(1), Some(2), Some(5), Some(9), Some(10), Some(11), Some(15), Some(20), Some(30), Some(40), Some(50), Some(100), Some(200), None]);
         let cfg = Config { cols, rows, limit };
         let mut p = if r.chance(1, 3) { Profile::chaos() } else { Profile::base() };
         p.fam[F_TEXT] = 40;
@@ -41,6 +42,7 @@ impl Check for C14 {
         p.snapshot_pm = 0;
         p.observe_pm = 0;
         p.huge = false;
+        p.bursts = limit.map(|l| l >= 40).unwrap_or(false) || r.chance(1, 10);
         p.max_tokens = if tier == Tier::Thorough && r.chance(1, 8) { 200 } else { 50 };
         let o = SessionOpts { profile: p, max_cols: mc, max_rows: mr };
         let policy = *r.pick(&CUT_POLICIES);
@@ -107,6 +109,9 @@ impl Check for C14 {
         if live.hid.alt {
             st.bump("skipped_ends_on_alternate");
             return Verdict::Skip;
+        }
+        if t.config.limit.is_none() && !handed.is_empty() {
+            return Verdict::Violation { rule: "C14/unlimited-hands-out".into(), detail: format!("a terminal with unlimited scrollback handed out {} lines through Changes.scrollback", handed.len()) };
         }
         let res = catch_avt(|| {
             let mut stream: Vec<&Line> = handed.iter().collect();
@@ -180,7 +185,7 @@ impl Check for C14 {
     }
     fn meta(&self) -> Meta {
         Meta {
-            rule: "sessions without RIS and without resize that end on the primary screen (alternate-screen excursions, scroll regions, DL on row 0, top-anchored partial scrolls, garbage tokens), limit L in {0,1,2,5,9,10,11,15,20,30}, every cut policy, full drain; oracle: lines drained from every Changes.scrollback ++ final lines() == lines() of an unlimited terminal fed the same characters in one call (order, count, Line == Line), and util::TextCollector gives the same text; non-trivial = at least one line scrolled off; distinct = (final screen, number of handed-out lines)",
+            rule: "sessions without RIS and without resize that end on the primary screen (alternate-screen excursions, scroll regions, DL on row 0, top-anchored partial scrolls, garbage tokens), limit L in {0,1,2,5,9,10,11,15,20,30,40,50,100,200, unlimited} (line-feed bursts of 1150-4000 rows with the larger limits), every cut policy, full drain; oracle: lines drained from every Changes.scrollback ++ final lines() == lines() of an unlimited terminal fed the same characters in one call (order, count, Line == Line), and util::TextCollector gives the same text; non-trivial = at least one line scrolled off; distinct = (final screen, number of handed-out lines)",
             assumptions: vec!["runs that contain a RIS, end on the alternate screen, contain a resize or a non-full drain are skipped (outside the statement)", "a panic on both sides is C01's subject"],
             real: vec!["avt::Vt (both twins)", "avt::util::TextCollector (both twins)", "avt::parser::Parser (lock-step, RIS / alternate detection)"],
             simulated: vec!["App (scroll-heavy)", "Pipe (cuts, feed() loops)", "Consumer (full drain)"],
